@@ -118,7 +118,8 @@ func init() {
 				}
 				// texts that need escaping when quoted: white space around a version (kept by the
 				// ecosystems that store the original text) and a quote / backslash inside it
-				for _, a := range []string{"{w}" + ts[0], ts[0] + "{w}", ts[0] + "-{[a\\x22\\x5c]}{[b\\x22\\x5c]}"} {
+				// ... and a list separator inside one argument (one argument is one version, whatever it contains)
+				for _, a := range []string{"{w}" + ts[0], ts[0] + "{w}", ts[0] + "-{[a\\x22\\x5c]}{[b\\x22\\x5c]}", ts[0] + "{[,;| ]}{d}"} {
 					out = append(out, &Config{ID: fmt.Sprintf("C15/sort/%s/esc/%s", eco, a), Pkg: cmdPkg, Func: "C15Sort3", Args: []ArgSpec{ArgStr(eco), ArgTmpl(ts[0]), ArgTmpl(a), ArgTmpl(ts[len(ts)-1])}})
 				}
 			}
@@ -165,7 +166,7 @@ func init() {
 			return out
 		},
 		Bounds: func(tier string) string {
-			return "all 20 names + vers; compare: 7x7 (quick) / 11x11 argument templates incl. empty string, leading space/dash, embedded space and quotes; contains: 7 range templates x 5 version templates; sort: 3 arguments, one of them also with surrounding white space (space, tab, CR, LF) or a quote / backslash in a qualifier; vers: 4 range shapes x 2 probes per scheme; argument vectors of 0-5 arguments with symbolic names (2-6 letters, 2 raw bytes) and commands (4-8 letters), and with a first operand of 1-2 arbitrary printable bytes"
+			return "all 20 names + vers; compare: 7x7 (quick) / 11x11 argument templates incl. empty string, leading space/dash, embedded space and quotes; contains: 7 range templates x 5 version templates; sort: 3 arguments, one of them also with surrounding white space (space, tab, CR, LF) or a quote / backslash in a qualifier or a list separator (comma, semicolon, bar, space) inside it; vers: 4 range shapes x 2 probes per scheme; argument vectors of 0-5 arguments with symbolic names (2-6 letters, 2 raw bytes) and commands (4-8 letters), and with a first operand of 1-2 arbitrary printable bytes"
 		},
 		Assume: []string{"name -> ecosystem table is spec-side (zzh dispatchers generated from the list of 20 names)"},
 	})
